@@ -703,7 +703,9 @@ def call(
         step_inp = [executable, *su_inp_paths]
     else:
         # dumpns(do_amend=True) calls amend(out=args_file) before writing.
-        dumpns(su_args_file, forwarded)
+        # Like every other path of the new step, `args_file` is relative to its working directory,
+        # while this function runs in the working directory of the calling step.
+        dumpns((Path(su_workdir) / su_args_file).normpath(), forwarded)
         command = f"{shlex.quote(executable)} {function} --inp={shlex.quote(su_args_file)}"
         step_inp = [executable, *su_inp_paths, su_args_file]
 
